@@ -183,16 +183,17 @@ pub fn run(tier: Tier) -> i32 {
     let mk_case = |ty: u32, rc: i64, mi: usize, ti: usize, ri: usize, ci: usize, k: usize| -> Case {
         let res = Res { rc, matched: strs[mi].as_bytes().to_vec(), text: strs[ti].as_bytes().to_vec(), referral: refs[ri].clone() };
         let (name, val) = if ty == 24 {
-            match k % 4 {
+            match k % 5 {
                 0 => (None, None),
                 1 => (Some(b"1.3.6.1.4.1.4203.1.11.3".to_vec()), None),
                 2 => (None, Some(b"dn:cn=x".to_vec())),
+                3 => (Some(b"1.3.6.1.4.1.4203.1.11.1".to_vec()), Some(vec![0x30, 0x05, 0x80, 0x03, 0xff, 0x00, 0x80])),
                 _ => (Some(b"1.2.3".to_vec()), Some(vec![])),
             }
         } else {
             (None, None)
         };
-        let creds = if ty == 1 && k % 3 == 1 { Some(vec![1, 2, 3]) } else if ty == 1 && k % 3 == 2 { Some(vec![]) } else { None };
+        let creds = if ty == 1 && k % 4 == 1 { Some(vec![1, 2, 3]) } else if ty == 1 && k % 4 == 2 { Some(vec![]) } else if ty == 1 && k % 4 == 3 { Some(vec![0xff, 0x00, 0x80, 0xc3]) } else { None };
         let controls = if cls[ci].is_empty() && k % 2 == 0 { None } else { Some(cls[ci].clone()) };
         let ids = [1i64, 127, 128, 255, 256, 32768, 65536, i32::MAX as i64];
         Case { msg: Msg { id: ids[k % ids.len()], op: mk_op(ty, res, name.clone(), val.clone(), creds.clone()), controls }, name, val, creds }
@@ -264,10 +265,10 @@ pub fn run(tier: Tier) -> i32 {
     let mut lane_b = 0u64;
     for (ki, kind) in [OpKind::Bind, OpKind::Compare, OpKind::Delete, OpKind::Extended, OpKind::Add, OpKind::Modify, OpKind::ModDn].iter().enumerate() {
         for rc in [0u32, 5, 6, 10, 32, 49, 122, 4096] {
-            for (referral, res_ctrls) in [(false, false), (true, false), (false, true), (true, true)] {
-                let mut s = Scenario::new(&format!("C03/through-driver/{:?}/rc{}", kind, rc));
+            for (referral, res_ctrls, binary) in [(false, false, false), (true, false, false), (false, true, true), (true, true, false), (false, false, true)] {
+                let mut s = Scenario::new(&format!("C03/through-driver/{:?}/rc{}/binary={}", kind, rc, binary));
                 s.clients = vec![ClientSpec { script: vec![Call::Single { kind: kind.clone(), marker: "ć€-m".into(), timeout: None, ctrl: ki % 2 == 0 }], free: 0 }];
-                s.plans.insert("ć€-m".into(), Plan { rc, referral, res_ctrls, ..Default::default() });
+                s.plans.insert("ć€-m".into(), Plan { rc, referral, res_ctrls, binary_payload: binary, extra_res_ctrl: binary && res_ctrls, ..Default::default() });
                 s.oracles = Oracles { route: true, ..Default::default() };
                 s.preset = Some(([0, 126, 254, 65534][ki % 4], vec![]));
                 let id = s.preset.as_ref().unwrap().0 as i64 + 1;
@@ -337,7 +338,7 @@ pub fn run(tier: Tier) -> i32 {
     let c = cov(vec![
         ("evaluations", json!(lane_a + lane_b)),
         ("distinct_nontrivial", json!(distinct.load(Ordering::Relaxed))),
-        ("rule", json!("lane a: every response type x every rc in 0..=122 plus 4096 and 2^31-1 (other fields rotating), and every response type x matched x text x referral x control list (0-2 controls: known/unknown OID x criticality absent/FALSE/TRUE x value absent/empty/bytes); each message encoded minimally, with every single length field in each of the forms 81/82/83/84, with all fields in each form, and (small messages) with every combination; decoded by the crate's codec and result converter; helpers for every rc in 0..=255. lane b: every single-result operation kind and search completion through a pending real operation over the in-memory transport. distinct_nontrivial = distinct response messages (not counting re-encodings)")),
+        ("rule", json!("lane a: every response type x every rc in 0..=122 plus 4096 and 2^31-1 (other fields rotating), and every response type x matched x text x referral x control list (0-2 controls: known/unknown OID x criticality absent/FALSE/TRUE x value absent/empty/bytes); each message encoded minimally, with every single length field in each of the forms 81/82/83/84, with all fields in each form, and (small messages) with every combination; decoded by the crate's codec and result converter; helpers for every rc in 0..=255. lane b: every single-result operation kind (also with an ExtendedResponse value / serverSaslCreds that are not UTF-8, and two result controls) and search completion through a pending real operation over the in-memory transport. distinct_nontrivial = distinct response messages (not counting re-encodings)")),
         ("lane_a_decodes", json!(lane_a)),
         ("lane_b_operations_through_driver", json!(lane_b)),
         ("samples", json!([ber::hex(&mk_case(24, 10, 2, 1, 2, 5, 7).msg.encode())])),
